@@ -1,8 +1,11 @@
 package main
 
 import (
+	"bytes"
 	"fmt"
 	stdslog "log/slog"
+	"math"
+	"strings"
 	"time"
 
 	"github.com/hedzr/logg/slog"
@@ -51,6 +54,7 @@ func c15groupHist(c *Ctx) {
 			{"a record without attributes", nil, nil},
 			{"a record with another group of the same name", []stdslog.Attr{stdslog.Group("req~", stdslog.Int64("status", 200))}, []gen.KV{grp("req~", i64("status", 200))}},
 			{"a record with a scalar only", []stdslog.Attr{stdslog.Int64("n", 4)}, []gen.KV{i64("n", 4)}},
+			{"a record with complex values whose imaginary part is NaN, +Inf, -0", []stdslog.Attr{stdslog.Any("c1", complex(1, math.NaN())), stdslog.Any("c2", complex(2.5, math.Inf(1))), stdslog.Any("c3", complex(3, math.Copysign(0, -1)))}, nil},
 			{"a record without attributes", nil, nil},
 		}
 		for step, x := range seq {
@@ -60,6 +64,19 @@ func c15groupHist(c *Ctx) {
 			rec.AddAttrs(x.as...)
 			exp := lastWins(append(append([]gen.KV(nil), base...), x.kvs...))
 			evs := capture(log, func() { _ = h.Handle(bg, rec) })
+			if strings.Contains(x.what, "complex values") {
+				// (judged by their text alone: what fmt prints for the value is what the record shows)
+				if len(evs) == 1 {
+					for _, cv := range []complex128{complex(1, math.NaN()), complex(2.5, math.Inf(1)), complex(3, math.Copysign(0, -1))} {
+						if want := fmt.Sprint(cv); !bytes.Contains(evs[0].Data, []byte(want)) {
+							c.R.Violation(idx, "derived-members", "C15/value/complex-with-a-special-imaginary-part", fmt.Sprintf("step %d: the record does not show the complex value %s: %s", step, want, q(clip(string(evs[0].Data), 700))), nil)
+							return
+						}
+					}
+					c.R.Add("complex_values_with_special_imaginary_parts_checked", 3)
+				}
+				continue
+			}
 			desc := map[string]any{"format": f.String(), "handler": how, "step": step, "record": x.what, "expected_attrs": gen.DescKVs(exp)}
 			if len(evs) != 1 || evs[0].Kind != mon.EvWrite {
 				c.R.Violation(idx, "once", "C15/once/group-history", fmt.Sprintf("step %d (%s): expected one record, saw %s", step, x.what, fmtEvents(evs)), desc)
